@@ -8,6 +8,10 @@ ROOT = os.path.dirname(os.path.dirname(os.path.abspath(__file__)))
 
 # id -> (engine, category, technique, text, note, design_ref)
 CHECKS = {
+    "C04": dict(engine="sched", category="model_checking", design_ref="DESIGN.md section 7 C04",
+        technique="(a) bounded-exhaustive input x option enumeration against the default decode, (s) exhaustive NewPacket/Dispose/Touch histories with the pool's Get as an explorer choice plus preemption-bounded schedule exploration of concurrent histories, on packet.go compiled against the sync shim",
+        text="Part a: every (first layer, input) of the deviation<=1 neighbourhoods and every fixture resized to 0/1/1499/1500/1501/3000/65535 bytes: NoCopy, Pool and NoCopy+Pool decodes (eager and lazy, DSAD on/off) equal the copying decode, PooledPacket iff Pool && !NoCopy && len<=1500, and a packet decoded with copying options is unchanged after every byte of the caller's buffer is complemented. Part s: all histories of depth 6 [7] over New(4 lengths x eager/lazy)/Dispose/Touch with <=3 live packets where Pool.Get may return any previously returned block or a fresh one; 2-3 goroutines running New/Touch/Dispose programs under every schedule with <=3 [4] preemptions, scheduling points before and after every pool operation. Invariant after every operation: undisposed pooled packets have pairwise distinct blocks and still read their original bytes.",
+        note="Trusted: the shim pool over-approximates sync.Pool; recycled blocks are poisoned so reads beyond len(data) are deterministic. Known findings: decoders that read beyond len(data) give different results with Pool (same root cause as C19 sites)."),
     "C03": dict(engine="statex", category="model_checking", design_ref="DESIGN.md section 7 C03",
         technique="explicit-state search over (lazy packet state x accessor alphabet) on the real lazy packet, every answer compared with the eager packet; plus unpruned enumeration of all accessor programs of length 3/4; plus full-decode equivalence on every enumerated input",
         text="For every non-empty input of the deviation<=1 neighbourhoods of the per-type fixture seeds x {NoCopy} x {DecodeStreamsAsDatagrams}: the lazy packet after Layers() equals the eager one (layers, contents, payloads, rendered fields, link/network/transport/application/error layers, truncation, String). For one representative per decode shape (the step-by-step trajectory of the lazy decode, read through an injected accessor): BFS over lazy states x ~18 accessor letters (Layer(t) for present and absent types, LayerClass, the five special-layer getters, Layers, String, Dump), each transition a fresh lazy packet with the path replayed, each answer compared with the eager packet's answer. For every unmodified seed: all programs of length 3 [thorough 4], unpruned.",
